@@ -1,55 +1,71 @@
 #!/bin/bash
-# confirm_seed.sh <property> <variant> <demo-package-dir> [demo test regex]
-# Confirms a seeded change independently: (1) applies to a scratch copy of the ORIGINAL tree
-# the seed was written against (/repo at $SEED_BASE, default 257ec47) plus — if it still
-# applies — of the current tree; (2) builds; (3) demo fails with the change; (4) demo passes
-# without; (5) the existing suite passes with the change.  Results -> /verif/seeded/<p>-<v>/.
+# confirm_seed.sh <property> <variant> [source dir]
+# Confirms a seeded change independently of the sub-agent that wrote it:
+#  (1) scratch copy of the tree the seed was written against (/repo at $SEED_BASE, default 257ec47);
+#  (2) every demo test file is placed in the package its `package` clause names;
+#  (3) demos pass WITHOUT the change; (4) the change builds; (5) demos fail WITH the change;
+#  (6) the existing suite (demos removed) passes WITH the change, tolerating only the names on the
+#      baseline's flaky list; tests.TestRemoteDeletionPool is skipped because it hangs under load on
+#      the unchanged tree too.
+# Results -> /verif/seeded/<p>-<v>/{patch.diff,*_test.go,notes.md,confirm.log,suite.log,meta.json}.
 set -u
 export GOFLAGS=-mod=mod GOPROXY=off GOSUMDB=off GOTOOLCHAIN=local; unset GOWORK
-p=$1; v=$2; pkg=$3; rx=${4:-Demo}
-src=/tmp/seeded/$p/$v
+p=$1; v=$2
 dst=/verif/seeded/$p-$v
+src=${3:-/tmp/seeded/$p/$v}
 mkdir -p $dst
-cp $src/patch.diff $dst/patch.diff
-cp $src/demo_test.go $dst/demo_test.go 2>/dev/null || cp $src/*_test.go $dst/ 2>/dev/null
-cp $src/notes.md $dst/notes.md 2>/dev/null
+if [ -d "$src" ]; then
+  cp $src/patch.diff $dst/patch.diff
+  cp $src/*_test.go $dst/ 2>/dev/null
+  cp $src/notes.md $dst/notes.md 2>/dev/null
+fi
 BASE=${SEED_BASE:-257ec47}
 WT=$(mktemp -d /tmp/verif-confirm.XXXXXX); trap 'rm -rf "$WT"' EXIT
 git -C /repo archive $BASE 2>/dev/null | tar -x -C $WT 2>/dev/null
 cd $WT && git init -q . && git add -A >/dev/null 2>&1 && git -c user.email=v@v -c user.name=v commit -qm base >/dev/null
 log=$dst/confirm.log; : > $log
-for f in $dst/*_test.go; do cp $f $WT/$pkg/; done
-echo "## demo WITHOUT the change (must pass)" >> $log
-(cd $WT && timeout 400 go test -count=1 -run "$rx" ./$pkg/ -timeout 300s) >> $log 2>&1; without=$?
+pkgdir() { case "$(grep -m1 '^package ' "$1" | awk '{print $2}')" in
+  tests) echo tests;; command) echo imap/command;; rfcparser) echo rfcparser;; imap) echo imap;;
+  sqlite3) echo internal/db_impl/sqlite3;; store_test|store) echo store;; state) echo internal/state;;
+  backend) echo internal/backend;; session) echo internal/session;; rfc822) echo rfc822;; rfc5322) echo rfc5322;;
+  *) echo tests;; esac; }
+pkgs=""
+place() { for f in $dst/*_test.go; do d=$(pkgdir $f); cp $f $WT/$d/zz_seed_$(basename $f); case " $pkgs " in *" ./$d/ "*) ;; *) pkgs="$pkgs ./$d/";; esac; done; }
+unplace() { find $WT -name 'zz_seed_*_test.go' -delete; }
+rx='Seeded|Demo|TestC[0-9][0-9][ab]'
+place
+echo "## demo WITHOUT the change (must pass): $pkgs" >> $log
+(cd $WT && timeout 600 go test -count=1 -run "$rx" $pkgs -timeout 500s) >> $log 2>&1; without=$?
 git -C $WT apply $dst/patch.diff >> $log 2>&1 || { echo "PATCH DOES NOT APPLY" >> $log; echo "$p-$v: patch does not apply"; exit 1; }
 echo "## build WITH the change" >> $log
 (cd $WT && go build ./...) >> $log 2>&1; build=$?
 echo "## demo WITH the change (must fail)" >> $log
-(cd $WT && timeout 400 go test -count=1 -run "$rx" ./$pkg/ -timeout 300s) 2>&1 | tail -40 >> $log; with=${PIPESTATUS[0]}
-for f in $dst/*_test.go; do rm -f $WT/$pkg/$(basename $f); done
+(cd $WT && timeout 600 go test -count=1 -run "$rx" $pkgs -timeout 500s) 2>&1 | tail -60 >> $log; with=${PIPESTATUS[0]}
+unplace
 echo "## existing suite WITH the change (must pass)" >> $log
-(cd $WT && timeout 1700 go test -mod=mod -vet=off -count=1 -timeout 25m ./... 2>&1 | grep -E "^(ok|FAIL|---|panic)" ) > $dst/suite.log 2>&1
+(cd $WT && timeout 1700 go test -mod=mod -vet=off -count=1 -timeout 25m -skip 'TestRemoteDeletionPool$' ./... 2>&1 | grep -E "^(ok|FAIL|---|panic)" ) > $dst/suite.log 2>&1
 cat $dst/suite.log >> $log
-suite=$(grep -c "^FAIL\|^--- FAIL\|^panic" $dst/suite.log)
-# only flaky names tolerated
 flaky="TestBatchMessageAddedWithMultipleFlags|TestDeleteMailboxFromConnectorAlsoRemoveSubscriptionStatus|TestDeletionPool|TestDraftScenario|TestInvalidIMAPCommandDoesNotBlockStateUpdates|TestMailboxCreatedUpdate|TestMessageAddWithSameID|TestMessageCreatedIDLEUpdate|TestMessageCreatedNoopUpdate|TestMessageCreatedWithIgnoreMissingMailbox|TestMessageFlaggedUpdate|TestMessageRemovedUpdate|TestMessageRemovedUpdateRepeated|TestMessageSeenUpdate"
 hard=$(grep "^--- FAIL\|^panic" $dst/suite.log | grep -vE "($flaky)" | wc -l)
-echo "RESULT without=$without build=$build with=$with suite_fail_lines=$suite hard_fail=$hard" >> $log
-ok=false; if [ $without -eq 0 ] && [ $build -eq 0 ] && [ $with -ne 0 ] && [ $hard -eq 0 ]; then ok=true; fi
-python3 - "$p" "$v" "$pkg" "$ok" "$without" "$with" "$hard" <<'PY'
+okpk=$(grep -c "^ok" $dst/suite.log)
+echo "RESULT without=$without build=$build with=$with ok_packages=$okpk hard_fail=$hard" >> $log
+ok=false; if [ $without -eq 0 ] && [ $build -eq 0 ] && [ $with -ne 0 ] && [ $hard -eq 0 ] && [ $okpk -ge 17 ]; then ok=true; fi
+python3 - "$p" "$v" "$pkgs" "$ok" "$without" "$with" "$hard" "$okpk" <<'PY'
 import json,sys,os
-p,v,pkg,ok,without,withc,hard=sys.argv[1:]
+p,v,pkgs,ok,without,withc,hard,okpk=sys.argv[1:]
 d=f"/verif/seeded/{p}-{v}"
-notes=open(d+"/notes.md").read() if os.path.exists(d+"/notes.md") else ""
-meta={"property":p,"variant":v,"breaks":p,"demo_package":pkg,"confirmed":ok=="true",
- "needs_to_manifest": "see notes.md (written by the independent sub-agent that produced the change)",
- "ran":{"base":"/repo at 257ec47 (tree the seed was written against)","demo_without_change_exit":int(without),"demo_with_change_exit":int(withc),"non_flaky_suite_failures_with_change":int(hard),
-        "commands":[f"go test -run Demo ./{pkg}/ (with and without patch.diff)","go build ./...","go test -mod=mod -vet=off -count=1 -timeout 25m ./... (with patch.diff)"]},
- "detected_by": None}
+meta={}
 old=d+"/meta.json"
 if os.path.exists(old):
-    try: meta["detected_by"]=json.load(open(old)).get("detected_by")
-    except Exception: pass
+    try: meta=json.load(open(old))
+    except Exception: meta={}
+meta.update({"property":p,"variant":v,"breaks":p,"demo_packages":pkgs.split(),"confirmed":ok=="true",
+ "ran":{"base":"/repo at 257ec47 (the tree the seed was written against)","demo_without_change_exit":int(without),"demo_with_change_exit":int(withc),
+        "suite_ok_packages_with_change":int(okpk),"non_flaky_suite_failures_with_change":int(hard),
+        "commands":["go test -run 'Seeded|Demo|TestC[0-9][0-9][ab]' <demo packages> (without, then with patch.diff)","go build ./...",
+                    "go test -mod=mod -vet=off -count=1 -timeout 25m -skip 'TestRemoteDeletionPool$' ./... (with patch.diff, demos removed)"]}})
+meta.setdefault("needs_to_manifest","see notes.md (written by the independent sub-agent that produced the change)")
+meta.setdefault("detected_by",None)
 json.dump(meta,open(old,"w"),indent=1)
 PY
-echo "$p-$v: confirmed=$ok (without=$without with=$with hard=$hard)"
+echo "$p-$v: confirmed=$ok (without=$without build=$build with=$with ok_pkgs=$okpk hard=$hard)"
